@@ -6,7 +6,7 @@ for f in sorted(glob.glob('/verif/sim/*.go')):
     src=open(f).read()
     for m in re.finditer(r'violate\(\s*"(C\d\d)",\s*(?:"([a-z0-9A-Z]+)"|rule),\s*"((?:[^"\\]|\\.)*)"',src):
         rules.setdefault((m.group(1),m.group(2) or 'r4/r4b'),[]).append(m.group(3))
-    prop={'store_engine.go':'C09','reload_engine.go':'C17','proc_engine.go':'C20'}.get(f.split('/')[-1])
+    prop={'store_engine.go':'C09','reload_engine.go':'C17','proc_engine.go':'C20','late_engine.go':'C19'}.get(f.split('/')[-1])
     if prop:
         for m in re.finditer(r'violate\(\s*(?:"([a-z0-9]+)"|rule),\s*"((?:[^"\\]|\\.)*)"',src):
             rules.setdefault((prop,m.group(1) or 'r1/r2'),[]).append(m.group(2))
